@@ -37,8 +37,22 @@ impl Ctx {
     /// pick a count by tier
     pub fn n(&self, quick: u64, thorough: u64) -> u64 {
         let scale: f64 = std::env::var("VERIF_SCALE").ok().and_then(|s| s.parse().ok()).unwrap_or(1.0);
-        let v = if self.thorough() { thorough } else { quick };
+        let v = if self.thorough() { thorough } else { (quick as f64 * quick_factor(&self.id)) as u64 };
         ((v as f64 * scale) as u64).max(SHARDS)
+    }
+}
+
+/// per-property multiplier of the quick-tier case counts, tuned so that a quick run is a substantial,
+/// fixed amount of work (roughly 10-30 s on 16 cores)
+fn quick_factor(id: &str) -> f64 {
+    match id {
+        "C05" | "C28" | "C38" => 12.0,
+        "C12" => 8.0,
+        "C06" | "C10" => 6.0,
+        "C08" | "C09" => 5.0,
+        "C01" | "C02" | "C04" | "C07" | "C20" | "C21" | "C32" => 3.0,
+        "C22" => 4.0,
+        _ => 1.0,
     }
 }
 
